@@ -255,6 +255,17 @@ func (t *Tree) buildNode(i int, spec BlockSpec, parent *TNode) *TNode {
 }
 
 func applyCorruption(cs consensus.State, b *types.Block, c Corruption, genesisTS time.Time) {
+	// work on private copies: the transactions are shared with the builder
+	if b.V2 != nil {
+		v2 := *b.V2
+		v2.Transactions = make([]types.V2Transaction, len(b.V2.Transactions))
+		for i := range b.V2.Transactions {
+			v2.Transactions[i] = b.V2.Transactions[i].DeepCopy()
+		}
+		b.V2 = &v2
+	}
+	b.Transactions = copyV1Txns(b.Transactions)
+	b.MinerPayouts = append([]types.SiacoinOutput(nil), b.MinerPayouts...)
 	switch c.Kind {
 	case "pow":
 		Grind(cs, b, false)
@@ -394,7 +405,7 @@ type TreeGenConfig struct {
 
 // DefaultTreeGen returns the generator bounds of the current tier.
 func DefaultTreeGen() TreeGenConfig {
-	c := TreeGenConfig{MaxBlocks: 24, MaxTxs: 3, CorruptPct: 5, Kinds: IntentKinds, MaxAllow: 10, ForkPct: 30, BadIntentPct: 3}
+	c := TreeGenConfig{MaxBlocks: 24, MaxTxs: 3, CorruptPct: 6, Kinds: IntentKinds, MaxAllow: 10, ForkPct: 22, BadIntentPct: 3}
 	if Thorough() {
 		c.MaxBlocks = 60
 		c.MaxAllow = 16
@@ -404,7 +415,15 @@ func DefaultTreeGen() TreeGenConfig {
 
 // GenNet draws a network.
 func GenNet(t *rapid.T, maxAllow int) NetSpec {
-	switch rapid.IntRange(0, 9).Draw(t, "regime") {
+	ns := genNet(t, maxAllow)
+	if Chance(t, 20, "hardroll") {
+		ns.Hard = rapid.IntRange(1, 3).Draw(t, "hard")
+	}
+	return ns
+}
+
+func genNet(t *rapid.T, maxAllow int) NetSpec {
+	switch Uniform(t, 10, "regime") {
 	case 0: // v2 from the start
 		return NetSpec{Maturity: rapid.IntRange(1, 3).Draw(t, "maturity"), Allow: 1, ReqOff: 0, CutOff: rapid.IntRange(0, 6).Draw(t, "cut")}
 	case 1: // v1 only within the explored depth
@@ -421,18 +440,18 @@ func GenNet(t *rapid.T, maxAllow int) NetSpec {
 // GenIntent draws one intent.
 func GenIntent(t *rapid.T, kinds []string, badPct int) Intent {
 	in := Intent{
-		Kind: rapid.SampledFrom(kinds).Draw(t, "kind"),
+		Kind: PickString(t, kinds, "kind"),
 		Who:  rapid.IntRange(0, NumActors-1).Draw(t, "who"),
 		To:   rapid.IntRange(0, NumActors-1).Draw(t, "to"),
 		Pick: rapid.IntRange(0, 7).Draw(t, "pick"),
 		Amt:  rapid.IntRange(0, 9).Draw(t, "amt"),
 		A:    rapid.IntRange(0, 11).Draw(t, "a"),
 		B:    rapid.IntRange(0, 5).Draw(t, "b"),
-		Eph:  rapid.IntRange(0, 3).Draw(t, "eph") == 0,
-		Fee:  rapid.IntRange(0, 2).Draw(t, "fee") == 0,
+		Eph:  Chance(t, 25, "eph"),
+		Fee:  Chance(t, 33, "fee"),
 		V2:   rapid.Bool().Draw(t, "v2"),
 	}
-	if badPct > 0 && rapid.IntRange(0, 99).Draw(t, "badroll") < badPct {
+	if Chance(t, badPct, "badroll") {
 		in.Bad = rapid.IntRange(1, 6).Draw(t, "bad")
 	}
 	return in
@@ -441,22 +460,37 @@ func GenIntent(t *rapid.T, kinds []string, badPct int) Intent {
 // GenTree draws a fork tree.
 func GenTree(t *rapid.T, cfg TreeGenConfig) TreeCase {
 	tc := TreeCase{Net: GenNet(t, cfg.MaxAllow)}
-	if cfg.SharedPct > 0 && rapid.IntRange(0, 99).Draw(t, "shared") < cfg.SharedPct {
+	if Chance(t, cfg.SharedPct, "shared") {
 		tc.SharedWindows = true
 	}
-	n := rapid.IntRange(min(6, cfg.MaxBlocks), cfg.MaxBlocks).Draw(t, "nblocks")
+	n := min(6, cfg.MaxBlocks) + Uniform(t, cfg.MaxBlocks-min(6, cfg.MaxBlocks)+1, "nblocks")
+	slow := Chance(t, 15, "slowstart")
 	for i := 0; i < n; i++ {
 		bs := BlockSpec{Dt: rapid.IntRange(0, 4).Draw(t, "dt"), Miner: rapid.IntRange(0, NumActors-1).Draw(t, "miner")}
-		if i > 0 && rapid.IntRange(0, 99).Draw(t, "forkroll") < cfg.ForkPct {
-			bs.Back = rapid.IntRange(1, 8).Draw(t, "back")
+		if slow {
+			// a slow branch: late timestamps lower the difficulty, so that chain
+			// length and accumulated work come apart
+			bs.Dt = rapid.SampledFrom([]int{30, 600, 3600}).Draw(t, "slowdt")
+		}
+		if i > 0 && Chance(t, cfg.ForkPct, "forkroll") {
+			// mostly short forks (so that chains grow deep), sometimes long ones
+			if Chance(t, 25, "longfork") {
+				bs.Back = rapid.IntRange(3, 12).Draw(t, "back")
+			} else {
+				bs.Back = rapid.IntRange(1, 2).Draw(t, "back")
+			}
+			slow = Chance(t, 25, "slowbranch")
+			if slow {
+				bs.Dt = rapid.SampledFrom([]int{30, 600, 3600}).Draw(t, "slowdt")
+			}
 		}
 		ntx := rapid.IntRange(0, cfg.MaxTxs).Draw(t, "ntx")
 		for j := 0; j < ntx; j++ {
 			bs.Txs = append(bs.Txs, GenIntent(t, cfg.Kinds, cfg.BadIntentPct))
 		}
-		bs.OnBad = rapid.IntRange(0, 3).Draw(t, "onbad") == 0
-		if cfg.CorruptPct > 0 && rapid.IntRange(0, 99).Draw(t, "corruptroll") < cfg.CorruptPct {
-			bs.Corrupt = &Corruption{Kind: rapid.SampledFrom(CorruptionKinds).Draw(t, "ckind"), Arg: rapid.IntRange(0, 15).Draw(t, "carg")}
+		bs.OnBad = Chance(t, 25, "onbad")
+		if Chance(t, cfg.CorruptPct, "corruptroll") {
+			bs.Corrupt = &Corruption{Kind: PickString(t, CorruptionKinds, "ckind"), Arg: rapid.IntRange(0, 15).Draw(t, "carg")}
 		}
 		tc.Blocks = append(tc.Blocks, bs)
 	}
@@ -506,3 +540,19 @@ func Normalize(b types.Block) (types.Block, bool) {
 
 // DebugHook is called with a block that fails the round-trip guard.
 var DebugHook func(types.Block)
+
+func copyV1Txns(txns []types.Transaction) []types.Transaction {
+	out := make([]types.Transaction, len(txns))
+	for i, t := range txns {
+		var buf bytes.Buffer
+		e := types.NewEncoder(&buf)
+		t.EncodeTo(e)
+		e.Flush()
+		d := types.NewBufDecoder(buf.Bytes())
+		out[i].DecodeFrom(d)
+		if d.Err() != nil {
+			panic(d.Err())
+		}
+	}
+	return out
+}
